@@ -27,6 +27,8 @@ type State struct {
 	PC   []*Term
 	// harness bookkeeping
 	Notes []string
+	// SplitTag records explicit case splits (vChoose); states with different tags are never merged
+	SplitTag string
 }
 
 func (s *State) Fork() *State {
@@ -34,6 +36,7 @@ func (s *State) Fork() *State {
 	n.PC = make([]*Term, len(s.PC), len(s.PC)+4)
 	copy(n.PC, s.PC)
 	n.Notes = append([]string{}, s.Notes...)
+	n.SplitTag = s.SplitTag
 	return n
 }
 
@@ -126,6 +129,9 @@ type Exec struct {
 	Instrs      int
 	Paths       int
 	BranchQueries int
+	ModelHits int
+	models []*Model
+	BranchSecs float64
 	Verbose     bool
 	nondet      map[string]Value
 	Concrete    map[string]*bigInt // pinned nondet values (selftest / replay)
@@ -397,7 +403,15 @@ func (e *Exec) isqrt(x *Term) *Term {
 	if v, ok := e.defKey[key]; ok {
 		return v[0]
 	}
-	s := ts.FreshBounded("sqrt", new(big.Int), nil)
+	var sLo, sHi *big.Int
+	sLo = new(big.Int)
+	if x.Lo != nil && x.Lo.Sign() > 0 {
+		sLo = new(big.Int).Sqrt(x.Lo)
+	}
+	if x.Hi != nil && x.Hi.Sign() >= 0 {
+		sHi = new(big.Int).Sqrt(x.Hi)
+	}
+	s := ts.FreshBounded("sqrt", sLo, sHi)
 	s1 := ts.Add(s, ts.Int64(1))
 	e.addDef(ts.Implies(ts.Ge(x, ts.Int64(0)), ts.And(ts.Le(ts.Mul(s, s), x), ts.Lt(x, ts.Mul(s1, s1)))))
 	e.defKey[key] = []*Term{s}
